@@ -46,6 +46,17 @@ func (c c13cfg) dest(sev slog.Level) []int {
 
 const diagText = "slog print log failed"
 
+// nestingValue logs a record through another logger while it is being formatted.
+type nestingValue struct {
+	lg *slog.Entry
+	id string
+}
+
+func (v nestingValue) String() string {
+	v.lg.Info("inner "+v.id, "x", 1)
+	return "inner-done"
+}
+
 func c13enum(c *Ctx) {
 	_ = slog.RegisterLevel(lvlCustErr, "custerr", slog.RegWithTreatedAsLevel(slog.ErrorLevel), slog.RegWithPrintToErrorDevice(true))
 	slog.AddFlags(slog.LnoInterrupt)
@@ -106,6 +117,10 @@ func c13enum(c *Ctx) {
 		}
 		pool = append(pool, w)
 	}
+	nlog := mon.NewLog()
+	nestL := slog.New("nested").Root()
+	nestL.SetColorMode(false)
+	nestL.SetWriter(mon.New(nlog, "N", mon.ShapePlain)).SetErrorWriter(mon.New(nlog, "N", mon.ShapePlain)).SetLevel(slog.AlwaysLevel)
 	treat := map[slog.Level]slog.Level{lvlCustErr: slog.ErrorLevel}
 	for k, v := range builtinTreatAs {
 		treat[k] = v
@@ -261,6 +276,52 @@ func c13enum(c *Ctx) {
 			if !judge("h", ci, sev, true) {
 				return
 			}
+		}
+		// ... also when two records are being formatted at the same time: a value of the record logs through another
+		// logger while it is formatted (nothing a failure left behind may be handed out twice)
+		if L != slog.OffLevel {
+			id := fmt.Sprintf("<n%d>", idx)
+			log.Reset()
+			nlog.Reset()
+			panicked := ""
+			func() {
+				defer func() {
+					if e := recover(); e != nil {
+						panicked = fmt.Sprint(e)
+					}
+				}()
+				lg.LogAttrs(bg, slog.AlwaysLevel, "rec "+id, "a", 1, "nest", nestingValue{nestL, id}, "z", 2)
+			}()
+			sig := func(clause string) string { return "C13/" + clause + "/nested/always" }
+			if panicked != "" {
+				c.R.Violation(idx, "returns-normally", sig("returns-normally"), "after the faults stopped, a record whose value logs through another logger panicked: "+panicked, desc)
+				return
+			}
+			got := map[string]int{}
+			for _, e := range log.Events() {
+				if e.Kind != mon.EvWrite {
+					continue
+				}
+				got[e.W]++
+				d := e.Data
+				if !bytes.HasPrefix(d, []byte("time=")) || bytes.Count(d, []byte{'\n'}) != 1 || d[len(d)-1] != '\n' || bytes.Count(d, []byte("rec "+id)) != 1 ||
+					!bytes.Contains(d, []byte("inner-done")) || !bytes.Contains(d, []byte(" a=1 ")) || !bytes.Contains(d, []byte(" z=2")) || bytes.Contains(d, []byte("inner "+id)) {
+					c.R.Violation(idx, "recovery", sig("recovery"), fmt.Sprintf("after the faults stopped, destination %s was handed something that is not the complete record of the call (a value of that record logs through another logger while being formatted): %s", e.W, q(clip(string(d), 300))), desc)
+					return
+				}
+			}
+			for _, w := range cfg.dest(slog.AlwaysLevel) {
+				if got[fmt.Sprintf("W%d", w)] != 1 {
+					c.R.Violation(idx, "recovery", sig("recovery"), fmt.Sprintf("after the faults stopped, destination W%d received the record %d time(s) (a value of that record logs through another logger while being formatted)", w, got[fmt.Sprintf("W%d", w)]), desc)
+					return
+				}
+			}
+			nev := nlog.Events()
+			if len(nev) != 1 || !bytes.HasPrefix(nev[0].Data, []byte("time=")) || bytes.Count(nev[0].Data, []byte("inner "+id)) != 1 || nev[0].Data[len(nev[0].Data)-1] != '\n' || bytes.Contains(nev[0].Data, []byte("rec "+id)) {
+				c.R.Violation(idx, "recovery", sig("recovery"), fmt.Sprintf("after the faults stopped, the record logged from inside a value's String() was not delivered once and whole: %s", clip(fmtEvents(nev), 400)), desc)
+				return
+			}
+			c.R.Add("nested_records_after_recovery", 1)
 		}
 		c.R.Add("schedules", 1)
 		if failedAny {
